@@ -1350,6 +1350,33 @@ Proof.
   apply nofuel_bind; [nf|intros vi; nf].
 Qed.
 
+Lemma add_u16_nofuel : forall m a b, add_u16 m a b <> CFuel.
+Proof. intros. unfold add_u16. nf. Qed.
+
+Lemma gid_for_sid_in_ranges_nofuel : forall m ranges sid gid,
+  gid_for_sid_in_ranges m ranges sid gid <> CFuel.
+Proof.
+  intros m ranges sid. induction ranges as [|[first n_left] r IH]; intros gid;
+    cbn [gid_for_sid_in_ranges]; [discriminate|].
+  destruct (charset_range_hit first n_left sid).
+  - apply nofuel_bind; [apply add_u16_nofuel|intros g; discriminate].
+  - apply nofuel_bind; [apply add_u16_nofuel|intros n].
+    apply nofuel_bind; [apply add_u16_nofuel|intros g]. apply IH.
+Qed.
+
+Lemma charset_sid_to_gid_nofuel : forall m cs sid, charset_sid_to_gid m cs sid <> CFuel.
+Proof.
+  intros. unfold charset_sid_to_gid. destruct (sid =? 0); [discriminate|].
+  destruct cs; try discriminate. apply gid_for_sid_in_ranges_nofuel.
+Qed.
+
+Lemma seac_gid_nofuel : forall e v, seac_gid e v <> CFuel.
+Proof.
+  intros. unfold seac_gid. destruct (try_as_u8 v); [|discriminate].
+  unfold seac_code_to_gid. destruct (e_charset e); try discriminate;
+    apply charset_sid_to_gid_nofuel.
+Qed.
+
 Lemma step_nofuel : forall rec k e d op r s,
   (forall cs s', d <> STACK_LIMIT -> rec (d + 1) cs s' <> CFuel) ->
   (forall b s', (length b <= length r)%nat -> k b s' <> CFuel) ->
@@ -1382,9 +1409,9 @@ Proof.
     + destruct (_ || _).
       * unfold step_seac. destruct (Z.eqb_spec d STACK_LIMIT) as [|Hd]; [discriminate|].
         apply nofuel_bind; [apply pop_nofuel|intros [av s1]].
-        destruct (seac_gid e av) as [accent|]; [|discriminate].
+        apply nofuel_bind; [apply seac_gid_nofuel|intros [accent|]]; [|discriminate].
         apply nofuel_bind; [apply pop_nofuel|intros [bv s2]].
-        destruct (seac_gid e bv) as [base|]; [|discriminate].
+        apply nofuel_bind; [apply seac_gid_nofuel|intros [base|]]; [|discriminate].
         apply nofuel_bind; [apply pop_nofuel|intros [dy s3]].
         apply nofuel_bind; [apply pop_nofuel|intros [dx s4]].
         apply nofuel_bind.
